@@ -257,3 +257,32 @@ Fixpoint ascending (l : list N) : bool :=
   end.
 Definition wf_world (w : world) : Prop :=
   ascending (map m_addr (w_members w)) = true /\ ascending (w_denoms w) = true.
+
+(* ---- instantiation with attached funds ----
+   Coins attached to the splits contract's own instantiate message are credited to it by
+   the chain before `instantiate` runs; the handler forwards nothing (the submessage that
+   creates the group on the Cw4Instantiate path carries `funds: vec![]`). *)
+Definition credit_self (w : world) (c : coin) : world :=
+  set_bank w (insert_denom (c_denom c) (w_denoms w))
+           (bank_set (w_bank w) (w_self w) (c_denom c) (bal (w_bank w) (w_self w) (c_denom c) + c_amount c)).
+Definition init_world_funded (self : addr) (admin gadmin : option addr) (ms : list member)
+           (attached : list coin) : world :=
+  fold_left credit_self attached (init_world self admin gadmin ms).
+
+(* total of a denom over all accounts / over a coin list / deposited by an op list *)
+Fixpoint supply (b : bank) (d : denom) : N :=
+  match b with
+  | [] => 0
+  | (_, d', v) :: rest => if d' =? d then v + supply rest d else supply rest d
+  end.
+Fixpoint coins_of (cs : list coin) (d : denom) : N :=
+  match cs with
+  | [] => 0
+  | c :: rest => if c_denom c =? d then c_amount c + coins_of rest d else coins_of rest d
+  end.
+Fixpoint deposited (ops : list op) (d : denom) : N :=
+  match ops with
+  | [] => 0
+  | Deposit d' amt :: rest => if d' =? d then amt + deposited rest d else deposited rest d
+  | _ :: rest => deposited rest d
+  end.
